@@ -13,6 +13,12 @@ import (
 // function can convert.
 
 type node struct {
+	// Getter (C04): the source struct has an accessor method Get<ID>() that returns one of
+	// its own reference-typed fields (field index GetterField); the target gets an extra field
+	// Got<ID> filled from it (`goverter:map Get<ID> Got<ID>`). Not a goverter custom function:
+	// the result must still be deep-copied.
+	Getter      bool
+	GetterField int
 	// MethodSrc (C07): the source struct has a fallible method Calc<ID>() that feeds the
 	// target field Calc<ID>. Ctor (C07): the struct's method uses goverter:default with a
 	// fallible constructor taking the source. Both need an ID field for fault keys.
@@ -186,6 +192,18 @@ func NewSpec(seed uint64, prop string) *Spec {
 		}
 		root.Fields = append(root.Fields, &field{Name: fmt.Sprintf("F%d", len(root.Fields)), TName: fmt.Sprintf("F%d", len(root.Fields)), N: sp})
 	}
+	if prop == "C04" && s.SkipCopy {
+		// converter-level skipCopySameType: positions whose types are NOT identical although
+		// they look alike must always be present (named vs unnamed container, T vs *T)
+		root := s.Roots[0]
+		for _, side := range []string{"S", "T"} {
+			nc := &node{Kind: "ncont", ID: s.id(), Basic: side, Elem: &node{Kind: "slice", Elem: &node{Kind: "basic", Basic: "string"}}}
+			s.NConts[nc.ID] = nc
+			root.Fields = append(root.Fields, &field{Name: fmt.Sprintf("F%d", len(root.Fields)), TName: fmt.Sprintf("F%d", len(root.Fields)), N: nc})
+		}
+		pl := &node{Kind: "ustruct", Fields: []*field{{Name: "P0", TName: "P0", N: &node{Kind: "basic", Basic: "int"}}, {Name: "P1", TName: "P1", N: &node{Kind: "basic", Basic: "string"}}}}
+		root.Fields = append(root.Fields, &field{Name: fmt.Sprintf("F%d", len(root.Fields)), TName: fmt.Sprintf("F%d", len(root.Fields)), N: &node{Kind: "slice", Elem: &node{Kind: "tptr", Elem: pl}}})
+	}
 	if prop == "C04" && s.SkipCopyMode == "methods" {
 		// one nested named pair with identical-type containers, reachable from two roots
 		for len(s.Roots) < 2 {
@@ -307,6 +325,22 @@ func (s *Spec) genStruct(depth int) *node {
 		n.Fields = append(n.Fields, s.mkField(i, s.gen(depth+1, n), n))
 	}
 	s.structsAt = s.structsAt[:len(s.structsAt)-1]
+	if s.Prop == "C04" && s.rng.IntN(4) == 0 {
+		// accessor method returning internal state of the source
+		var gn *node
+		switch s.rng.IntN(3) {
+		case 0:
+			gn = &node{Kind: "slice", Elem: &node{Kind: "basic", Basic: "string"}}
+		case 1:
+			gn = &node{Kind: "map", Key: &node{Kind: "basic", Basic: "string"}, Elem: &node{Kind: "basic", Basic: "int"}}
+		default:
+			gn = &node{Kind: "ptr", Elem: &node{Kind: "basic", Basic: "int64"}}
+		}
+		n.GetterField = len(n.Fields)
+		n.Fields = append(n.Fields, &field{Name: fmt.Sprintf("F%d", len(n.Fields)), TName: fmt.Sprintf("F%d", len(n.Fields)), N: gn})
+		n.Fields = append(n.Fields, &field{TOnly: true, MapPath: fmt.Sprintf("Get%d", n.ID), Name: fmt.Sprintf("Got%d", n.ID), TName: fmt.Sprintf("Got%d", n.ID), N: gn})
+		n.Getter = true
+	}
 	if s.Prop == "C04" && s.rng.IntN(4) == 0 {
 		// a container that is a named type on one side and its unnamed form on the other
 		// (assignable, but not identical)
@@ -665,6 +699,10 @@ func (s *Spec) TypesSource() string {
 	}
 	for _, id := range sortedIDs(s.Structs) {
 		n := s.Structs[id]
+		if n.Getter {
+			f := n.Fields[n.GetterField]
+			fmt.Fprintf(&b, "func (s S%d) Get%d() %s { return s.%s }\n", id, id, s.expr(f.N, "S"), f.Name)
+		}
 		if n.MethodSrc {
 			fn := fmt.Sprintf("S%d.Calc%d", id, id)
 			fmt.Fprintf(&b, "func (s S%d) Calc%d() (int, error) {\n\tif verifsim.Poisoned(%q, s.ID) {\n\t\treturn 0, verifsim.Inject(%q, s.ID)\n\t}\n\treturn s.ID*7 + 1, nil\n}\n", id, id, fn, fn)
